@@ -1,5 +1,6 @@
 import Driver.Tag
 import Driver.Utf
+import Driver.Lz4
 /-! `grdriver <mode>`: one input line → one output line (DESIGN.md §2 "line protocol") -/
 open Driver
 
@@ -9,10 +10,18 @@ partial def loop (h : IO.FS.Stream) (out : IO.FS.Stream) (f : String → String)
   out.putStrLn (f line)
   loop h out f
 
+partial def loopIO (h : IO.FS.Stream) (out : IO.FS.Stream) (f : String → IO String) : IO Unit := do
+  let line ← h.getLine
+  if line.isEmpty then return ()
+  out.putStrLn (← f line)
+  loopIO h out f
+
 def main (args : List String) : IO UInt32 := do
   let stdin ← IO.getStdin
   let stdout ← IO.getStdout
   match args with
   | ["tag"] => loop stdin stdout Tag.step; return 0
   | ["utf"] => loop stdin stdout Utf.step; return 0
+  | ["lz4"] => loop stdin stdout Lz4.step; return 0
+  | ["lz4io"] => loopIO stdin stdout Lz4.stepIO; return 0
   | _ => IO.eprintln "usage: grdriver <mode>"; return 2
